@@ -752,9 +752,78 @@ def sc_probe(cx):
     cx.op("proc")
 
 
+CROSS_VIOLATIONS = ["case1", "case2", "qname", "qtype", "qclass", "id+", "id-", "from", "fromsrv", "conn", "cookiebad",
+                    "cookienone", "qr"]
+CROSS_VARIANTS = ["plain", "tc", "servfail", "notimp", "refused", "formerr", "formerr-noopt", "nxdomain", "badcookie",
+                  "noopt", "tc-servfail", "tc-formerr", "opcode"]
+
+
+def sc_cross(cx):
+    """every acceptance criterion's violation crossed with every header variant that changes what an
+    ACCEPTED response would do next (TC x igntc, the rcodes that requeue, EDNS present/absent):
+    a packet that fails a criterion must be rejected - no delivery, no success or failure mark, no
+    requeue, no TCP switch - whatever its other header bits say"""
+    r = cx.rng
+    viol = r.choice(CROSS_VIOLATIONS)
+    var = r.choice(CROSS_VARIANTS)
+    flags = [f for f in cx.cfg["flags"] if f not in ("usevc", "igntc", "nocheckresp", "dns0x20")]
+    if viol in ("case1", "case2") or r.random() < 0.3:
+        flags.append("dns0x20")
+    if r.random() < 0.5:
+        flags.append("igntc")
+    if r.random() < 0.3:
+        flags.append("nocheckresp")
+    if viol in ("cookiebad", "cookienone"):
+        flags = ["edns" if f == "noedns" else f for f in flags]
+        cx.cfg["edns"] = True
+    cx.cfg["flags"] = flags
+    if viol in ("conn", "fromsrv") and nservers(cx) < 2:
+        cx.cfg["servers"] += 1
+    cx.cfg["tries"] = max(2, cx.cfg["tries"])
+    if r.random() < 0.5:
+        cx.cfg["qcachettl"] = 3600
+    edns = cx.cfg["edns"]
+    if viol in ("cookiebad", "cookienone"):
+        # the server proves cookie support first
+        a0 = send(cx, edns=True)
+        rsp(cx, a0, cookie="echo")
+        cx.op("proc")
+    a = send(cx, edns=edns if viol not in ("cookiebad", "cookienone") else True)
+    b = send(cx) if r.random() < 0.3 else None       # a bystander on the same socket
+    if viol == "conn":
+        timeout_step(cx)                               # the query moves to another server / socket
+    extra = {"plain": [], "tc": ["tc=1"], "servfail": ["rcode=SERVFAIL"], "notimp": ["rcode=NOTIMP"],
+             "refused": ["rcode=REFUSED"], "formerr": ["rcode=FORMERR"], "formerr-noopt": ["rcode=FORMERR", "noopt=1"],
+             "nxdomain": ["rcode=NXDOMAIN"], "badcookie": ["rcode=23"], "noopt": ["noopt=1"],
+             "tc-servfail": ["tc=1", "rcode=SERVFAIL"], "tc-formerr": ["tc=1", "rcode=FORMERR", "noopt=1"],
+             "opcode": ["opcode=%d" % r.choice([1, 2, 4, 5])]}[var]
+    muts = {"conn": [], "cookiebad": ["cookiebad"], "cookienone": ["cookienone"]}.get(viol, [viol])
+    cookie = None
+    if edns and viol not in ("cookiebad", "cookienone") and var not in ("formerr-noopt", "noopt", "tc-formerr") and r.random() < 0.6:
+        cookie = "echo"                                # otherwise the cookie criterion could fail as well
+    for _ in range(r.randint(1, 2)):
+        rsp(cx, a, muts, cookie=cookie, extra=extra)
+        if r.random() < 0.5:
+            cx.op("proc")                              # alone in its batch: the inertness monitor can judge it
+    cx.op("proc")
+    # the genuine answer still has to arrive where the query is now
+    rsp(cx, "xl" if viol == "conn" else a, cookie="echo" if edns else None)
+    if b is not None:
+        rsp(cx, "xl-1" if viol == "conn" else b, cookie="echo" if edns else None)
+    cx.op("proc")
+    # the same question again: nothing forged may come out of the cache
+    cx.tok += 1
+    cx.op("send %d %s IN %s rd%s" % (cx.tok, cx.sent[-1 if b is None else -2][1], cx.sent[-1 if b is None else -2][2],
+                                      " edns" if edns else ""))
+    cx.exact = False
+    rsp(cx, "xl", cookie="echo" if edns else None)
+    cx.op("proc")
+    cx.op("proc")
+
+
 SCENARIOS = [("basic", sc_basic, 20), ("resend", sc_resend, 16), ("tcpup", sc_tcpup, 10), ("done", sc_done, 8),
              ("idreuse", sc_idreuse, 8), ("cache", sc_cache, 10), ("cookie", sc_cookie, 12), ("errors", sc_errors, 8),
-             ("random", sc_random, 8), ("reentrant", sc_reentrant, 8), ("wrapped", sc_wrapped, 10), ("rawmsg", sc_rawmsg, 8), ("probe", sc_probe, 8)]
+             ("random", sc_random, 8), ("reentrant", sc_reentrant, 8), ("wrapped", sc_wrapped, 10), ("rawmsg", sc_rawmsg, 8), ("probe", sc_probe, 8), ("cross", sc_cross, 24)]
 
 
 def gen_case(rng):
